@@ -14,15 +14,16 @@ RFC = "names/_rfc1982.py"
 Q = "twisted.names._rfc1982.SerialNumber"
 TECHNIQUE = "finite-domain evaluation of SerialNumber methods by a whitelisted AST interpreter"
 EXPLANATION = (
-    "The bodies of SerialNumber.__init__/_convertOther/__eq__/__lt__/__gt__/__le__/__ge__/__add__ are read from the AST and "
-    "evaluated by a small whitelisted interpreter (integers, attribute reads, and/or/not, comparisons, try/except, calls "
-    "inside the class) - never by importing twisted.  Every comparison is evaluated for all pairs of widths 1..5 (1..7 in the thorough tier) and for "
-    "boundary representatives (|a-b| in {0,1,2,H-2..H+2,M-2,M-1}) of widths 6/7/8/16/32/64, so each cell of sign(a-b) x "
-    "cmp(|a-b|, halfRing) is hit at every width, and compared with the RFC 1982 3.2 table written independently as "
-    "d=(b-a) mod 2^bits: lt iff 0<d<H, gt iff d>H, eq iff d=0 (both false at d=H), le/ge = eq or lt/gt.  __add__ is "
-    "evaluated likewise: n <= 2^(bits-1)-1 gives (s+n) mod 2^bits in the same width and compares greater for n>0, larger n "
-    "raises ArithmeticError; operands of another width or type are refused (TypeError); ring constants are checked for "
-    "widths 1..64; the five fields are written only in __init__.  Not decided: the RFC 4034 date-string helpers."
+    'SerialNumber.__init__/_convertOther/__eq__/__lt__/__gt__/__le__/__ge__/__add__ are read from the AST and '
+    'evaluated by a small whitelisted interpreter (integers, attribute reads, and/or/not, comparisons, try/except, '
+    'calls inside the class) - never by importing twisted. Every comparison is evaluated for all pairs of widths 1..5 '
+    '(1..7 in the thorough tier) and for boundary representatives (|a-b| in {0,1,2,H-2..H+2,M-2,M-1}) of widths up to '
+    '64, so each cell of sign(a-b) x cmp(|a-b|, halfRing) is hit, and compared with RFC 1982 3.2 written '
+    'independently as d=(b-a) mod 2^bits: lt iff 0<d<H, gt iff d>H, eq iff d=0 (both false at d=H), le/ge = eq or '
+    'lt/gt. __add__ is evaluated likewise: n <= 2^(bits-1)-1 gives (s+n) mod 2^bits in the same width and compares '
+    'greater for n>0, larger n raises ArithmeticError. Operands of another width or type are refused, the ring '
+    'constants are checked for widths 1..64, and the five fields are written only in __init__. Not decided: the RFC '
+    '4034 date-string helpers.'
 )
 ASSUMPTIONS = [
     "SerialNumber's base class FancyStrMixin defines no comparison/arithmetic special method (checked: rule rfc1982/base-is-inert)",
